@@ -4,6 +4,10 @@ pub mod memseq;
 pub mod model;
 pub mod c14;
 pub mod c02;
+pub mod c07;
+pub mod c10;
+pub mod c12;
+pub mod image;
 pub mod c01;
 pub mod hscript;
 pub mod hyb;
